@@ -1,4 +1,6 @@
 import FrappyModel.Klass.Session
+import FrappyModel.Klass.Status
+import FrappyModel.Klass.StructRW
 /-
 C09 — Module classes, instances and configurations are isolated from each other.
 
@@ -62,6 +64,16 @@ def writesOwnB (l : List (α × α)) : Bool := l.all (fun p => decide (p.1 = p.2
 def ValFunctional {β : Type} (l : List (α × β)) : Prop := ∀ a b b', (a, b) ∈ l → (a, b') ∈ l → b = b'
 def valFunctionalB {β : Type} [DecidableEq β] (l : List (α × β)) : Bool :=
   l.all (fun p => l.all (fun q => !(p.1 == q.1) || decide (p.2 = q.2)))
+
+/-- "… or behaviour … of other instances": what a module shows after one and the same action on it (a member of a struct
+parameter is updated) is one thing - whether the action happens on its own or from inside an access to ANOTHER module (the
+struct of that module being read or written).  A pair is (step, module, member, action ↦ what the module shows afterwards),
+one pair per context the action was carried out in. -/
+def ContextFree {β : Type} (l : List (α × β)) : Prop := ∀ k b b', (k, b) ∈ l → (k, b') ∈ l → b = b'
+
+/-- monitor: the keys with more than one outcome -/
+def contextOffenders {β : Type} [DecidableEq β] (l : List (α × β)) : List α :=
+  ((l.filter (fun p => l.any (fun q => p.1 == q.1 && decide (q.2 ≠ p.2)))).map (·.1)).eraseDups
 
 /-! ## over the heap model -/
 
